@@ -3,6 +3,7 @@ import MorfuseModel.Sched.Machine
 import MorfuseModel.Sched.MachineHostProps
 import MorfuseModel.Sched.TimerRun
 import MorfuseModel.Sched.MachineTimerTraceHost
+import MorfuseModel.Sched.TimerOrder
 /-!
 # C06 — timed waits: never early, earliest first, exactly once
 
@@ -352,5 +353,30 @@ theorem C06_trace_due_order {s : State} (h : Reachable s) :
 example : (TRun.run {} [.add 100 5, .setTime 5, .next, .next]).returned = [((100, 5), 5)] ∧
     (TRun.run {} [.add 100 5, .setTime 5, .next, .next]).t.elems = (hostExecute (runOps {} (demoHost ++ [.advance 5]))).timer.elems := by
   decide +kernel
+
+/-- **Due order over a whole drain / a whole frame, trace level.**  For a reachable state `s`:
+    (1) the whole of `ScriptContext::Execute()` after `SetTime` — host events, the timer loop, every nested execution —
+    and (2) any single run of the timer loop (`ExecuteRunning`, e.g. at the end of a host call) have a ledger of
+    timer operations (no `setTime`, every `add` with due `≥ m_time`) in which the due times of the resumed elements,
+    in the order of resumption, are **nondecreasing**: the elements in the timer at the start come out by increasing due
+    time, and the threads registered during the drain (`wait 0`, re-timed `waitthread` callers: due `= m_time`) come
+    after every element that was due earlier.  (Among equal due times each `next` takes the oldest registration —
+    `C06_trace_due_order`; that the whole subsequence of equal dues is in arrival order is not stated here.) -/
+theorem C06_trace_drain_sorted {s : State} (h : Reachable s) :
+    (∃ ops : List TOp, timerRun (frameSetTime s).timer ops = (hostExecute s).timer ∧ NoSet ops ∧
+      AddsLate (frameSetTime s).timer ops ∧ (chronDues (frameSetTime s).timer ops).Pairwise (· ≤ ·)) ∧
+    (∀ fuel, ∃ ops : List TOp, timerRun s.timer ops = (executeRunning fuel s).timer ∧ NoSet ops ∧
+      AddsLate s.timer ops ∧ (chronDues s.timer ops).Pairwise (· ≤ ·)) := by
+  have hc := reachable_scaled h
+  constructor
+  · exact tt_dues_sorted (hostExecute_tt s) (by
+      show s.clock ≤ s.scaled + (s.clock - s.lastClock)
+      have := hc.1; have := hc.2; omega)
+  · intro fuel
+    exact tt_dues_sorted ((ttAll fuel).er s) (by rw [reachable_mtime h, hc.1]; exact Nat.le_refl _)
+
+/-- three timed threads due at 5, 3, 3 and one that re-waits 0: resumption order 3, 3, 5 -/
+example : chronDues { mtime := 5, dirty := true, elems := [(100, 5), (101, 3), (102, 3)] } [.next, .next, .next, .next] = [3, 3, 5] := by
+  decide
 
 end Morfuse.Sched
